@@ -158,8 +158,32 @@ def jsonable(x):
     return x
 
 
+_CALLS = [0]
+
+
+def _entry(cfg_path, out):
+    """Every other run goes through the console-script entry point `pandora.Pandora.main` (argparse: config,
+    output_dir, -v), the others call `pandora.main` directly: the statement is about the command-line run."""
+    import pandora
+
+    _CALLS[0] += 1
+    if _CALLS[0] % 2 == 0:
+        import sys
+
+        from pandora import Pandora as cli
+
+        argv = sys.argv
+        sys.argv = ["pandora", cfg_path, out]
+        try:
+            cli.main()
+        finally:
+            sys.argv = argv
+    else:
+        pandora.main(cfg_path, out, False)
+
+
 def run_main(cfg_path, out):
-    """one `pandora.main` run with the two observers installed; returns what was observed"""
+    """one command-line run with the two observers installed; returns what was observed"""
     import pandora
     from pandora import common
 
@@ -186,7 +210,7 @@ def run_main(cfg_path, out):
     try:
         with warnings.catch_warnings():
             warnings.simplefilter("ignore")
-            pandora.main(cfg_path, out, False)
+            _entry(cfg_path, out)
         obs["margins"] = obs["machine"].margins.to_dict()
     except Exception as exc:  # pylint: disable=broad-except
         obs["error"] = f"{type(exc).__name__}: {str(exc)[:300]}"
